@@ -56,6 +56,45 @@ def guard_facts(conds, peer):
     return nz, bigger, zero_cur
 
 
+def limit_selection_problems(repo, hier):
+    """Association.__init__ (helpers included): the limit the association starts with is the value it was given or the entity's
+    configured one, chosen by ``is None`` tests -- never by truth, because 0 is a value (PS3.8 D.1: no limit)
+    -> (problems, number of stores examined)"""
+    from ..provider_model import parse_cond
+    init = repo.cls('asceprovider', 'Association').find_method('__init__')
+    if init is None:
+        raise AnalysisError('Association.__init__ not found')
+    c = SymClient(repo, init, event_of=lambda *a: None, hierarchy=hier, inline=repo.is_helper,
+                  store_event=lambda t: t == 'self.max_pdu_length')
+    c.run(empty_state())
+    stores = [(e, s) for e, s in c.log if e.kind == 'store' and e.callee == 'self.max_pdu_length']
+    probs = []
+
+    def limit_valued(txt: str) -> bool:
+        return 'max_pdu_length' in txt or 'MAX_PDU' in txt.upper() and 'DEFAULT' not in txt.upper()
+    for e, s in stores:
+        term = e.args[0]
+        try:
+            te = ast.parse(term, mode='eval').body
+        except SyntaxError:
+            te = None
+        for n in ast.walk(te) if te is not None else []:
+            if isinstance(n, ast.BoolOp) and any(limit_valued(norm(v)) for v in n.values[:-1]):
+                probs.append('the association\'s maximum PDU length is %s: a given / configured 0 ("no limit") counts as "not given" and is '
+                             'replaced by the next operand' % term)
+        for cn in e.conds:
+            pol, ce = parse_cond(cn)
+            if ce is None:
+                continue
+            # a bare truth test of a limit (``if max_pdu_length:`` / ``if not max_pdu_length:``) that decides which value is kept
+            if isinstance(ce, (ast.Name, ast.Attribute)) and limit_valued(norm(ce)):
+                probs.append('the value kept as the association\'s maximum PDU length is chosen by the truth of %s: 0 ("no limit") is '
+                             'treated like a missing value' % norm(ce))
+    if not stores:
+        raise AnalysisError('%s: no store to self.max_pdu_length found' % init.loc())
+    return sorted(set(probs)), len(stores)
+
+
 def run(repo, rep):
     from ..pitfalls import memo_rule as _memo_rule
     _memo_rule(repo, rep, 'C10', 'C10.Z1')
@@ -87,6 +126,11 @@ def run(repo, rep):
     rep.check(not fp_, 'C10.X8', 'dimsemessages:DIMSEMessage.encode:whole-message-paths',
               repo.func('dimsemessages', 'DIMSEMessage.encode').loc(), '%d whole-message path(s), each bounded by the fragment width' % nfp_,
               '; '.join(fp_))
+    rep.rule('C10.X9', 'the limit an association starts with is the value it was given or the entity\'s configured one, chosen by '
+             '``is None`` tests and never by truth: a configured 0 (no limit) is announced and applied as 0', 1)
+    lp_, nl_ = limit_selection_problems(repo, hier)
+    rep.check(not lp_, 'C10.X9', 'asceprovider:Association.__init__:limit-selection', repo.cls('asceprovider', 'Association').loc(),
+              '%d store(s) of the starting limit, none chosen by truthiness' % nl_, '; '.join(lp_))
     # ---------------------------------------------------------------- X1 / X2
     facts = {}
     for cls, meth in (('AssociationAcceptor', 'accept'), ('AssociationRequester', '_request')):
